@@ -99,6 +99,18 @@ check("C10", "exploration",
       "bounded-exhaustive enumeration of all formula trees on the real code against a reference classifier",
       "DESIGN.md §3/C10")
 
+check("C11", "exploration",
+      "Full matrix of 21 side-effect-free contexts (guard, invariant, sync index, probability weight, select bound, global/"
+      "local initialiser, array size, range bound, instantiation argument, forall/exists/sum body, assert, channel priority "
+      "index, four query forms) x 60 write forms (all assignment operators bare and inside functions, ++/-- pre/post, array "
+      "element, struct field, inline-if/comma lvalues, writer calls and call chains of depth 1-3, the write placed in 13 "
+      "statement forms, reference parameters); each cell is paired with a read-only twin that must be accepted and a "
+      "local-only-writer control, so that the real type checker's verdicts are decided cell by cell.",
+      "Twins in compile-time contexts read constants only. Progress measures are not in the statement's list and are not "
+      "enumerated. Small scope: chains <= 3, one representative per statement form.",
+      "bounded-exhaustive matrix enumeration on the real type checker with a twin (differential) oracle",
+      "DESIGN.md §3/C11")
+
 check("C14", "exploration",
       "Full matrix: all ordered operand pairs from a typed pool x 11 commutative operators (a op b vs b op a), all ordered "
       "pairs as inline-if branches (c?a:b vs !c?b:a), and all ordered pairs of 16 typedef'd types as (argument, reference "
